@@ -124,10 +124,14 @@ class Ctx:
         self.counters[key] = self.counters.get(key, 0) + k
 
     # -- implementation side -------------------------------------------------------------
-    def run_impl(self, cases, fn="impl", batch_timeout=None, per_case_stall=60):
+    def run_impl(self, cases, fn="impl", batch_timeout=None, per_case_stall=None):
         """Run prop.<fn>(case) for every case in a worker subprocess that imports the staged
         package.  Crashes and hangs are localised to a case and reported as
         {'crash': ...}; exceptions as {'exc': name}."""
+        if per_case_stall is None:
+            # SIGALRM in the worker cannot interrupt a loop inside compiled code: the parent kills a
+            # worker that makes no progress for CASE_TIMEOUT + 15 s and reports that case as a hang
+            per_case_stall = int(getattr(self.prop, "CASE_TIMEOUT", 30)) + 15
         return run_worker(self, cases, fn, per_case_stall)
 
     def run_staged_python(self, code, timeout=600, args=()):
@@ -772,8 +776,12 @@ def write_evidence(ctx, pr, cases, outs, disagreements, failures, violations, br
         "wall_s": round(time.time() - ctx.t0, 2),
         "violations": len(violations) + (1 if (broken and not violations) else 0),
     }
-    os.makedirs(os.path.join(VERIF, "evidence"), exist_ok=True)
-    p = os.path.join(VERIF, "evidence", ctx.id + ".json")
+    # evidence/ describes runs against /repo itself; runs against a scratch copy (VERIF_REPO, used for
+    # mutants and seeded changes) write elsewhere so they never overwrite it
+    evdir = os.path.join(VERIF, "evidence") if os.path.realpath(stg.REPO) == "/repo" else os.path.join(
+        stg.CACHE, "evidence-scratch")
+    os.makedirs(evdir, exist_ok=True)
+    p = os.path.join(evdir, ctx.id + ".json")
     with open(p + ".tmp", "w") as f:
         json.dump(ev, f, indent=1, default=_js)
     os.replace(p + ".tmp", p)
